@@ -88,6 +88,14 @@ def call_ret(contract):
     return _call_rets[contract]
 
 
+def call_raised(contract):
+    raise KeyError('call_raised is a ghost of the symbolic executor')
+
+
+def call_errno(contract):
+    raise KeyError('call_errno is a ghost of the symbolic executor')
+
+
 def entries_none_from(table, lo):
     return all(x is None for x in list(table)[max(lo, 0):])
 
